@@ -31,18 +31,33 @@ Theorem C20_id_expr_evaluators_agree : forall libm fuel dl cache,
   v = wrap32 (w + k).
 Proof. exact two_evaluators_agree. Qed.
 
+(* sprite and script names share one namespace (two enums).  [use_ok] (Proofs/IdsExpr.v) spells out what each kind of use
+   must be: an argument typed by its signature (`n`: XSprite, `N`: XScript) is the id of every sprite of that name in the
+   written table / the script's unique position, looked up in the signature's enum first and in the other enum otherwise;
+   an untyped use (XPlain: `const int W = name;`, a plain int argument) of a name that is both a sprite and a script never
+   compiles (~ (is_sprite /\ is_script)), and otherwise is the value of its only owner *)
 Theorem C20_anm_src_name_value_is_table_value : forall libm fuel inp tbl nums args,
   NoDup (map fst (as_consts inp)) ->
   compile_anm_src gen_optable libm fuel gen_idtable inp = Ok (tbl, nums, args) ->
   length tbl = length (concat (as_entries inp)) /\
-  (forall j n, nth_error (as_uses inp) j = Some (USprite n) ->
-     exists a, nth_error args j = Some a /\
-       (exists i s, nth_error (concat (as_entries inp)) i = Some s /\ ss_name s = n) /\
-       (forall i s, nth_error (concat (as_entries inp)) i = Some s -> ss_name s = n -> nth_error tbl i = Some a)) /\
-  (forall j n, nth_error (as_uses inp) j = Some (UScript n) ->
-     exists i, nth_error (map sc_name (as_scripts inp)) i = Some n /\ nth_error args j = Some (u32 (Z.of_nat i)) /\
-               forall i', nth_error (map sc_name (as_scripts inp)) i' = Some n -> i' = i).
+  forall j u, nth_error (as_uses inp) j = Some u ->
+    exists a, nth_error args j = Some a /\
+      match u with
+      | XSprite n => (is_sprite (concat (as_entries inp)) n -> sprite_target (concat (as_entries inp)) tbl n a) /\
+                     (~ is_sprite (concat (as_entries inp)) n -> script_target (map sc_name (as_scripts inp)) n a)
+      | XScript n => (is_script (map sc_name (as_scripts inp)) n -> script_target (map sc_name (as_scripts inp)) n a) /\
+                     (~ is_script (map sc_name (as_scripts inp)) n -> sprite_target (concat (as_entries inp)) tbl n a)
+      | XPlain n => ~ (is_sprite (concat (as_entries inp)) n /\ is_script (map sc_name (as_scripts inp)) n) /\
+                    (is_sprite (concat (as_entries inp)) n -> sprite_target (concat (as_entries inp)) tbl n a) /\
+                    (is_script (map sc_name (as_scripts inp)) n -> script_target (map sc_name (as_scripts inp)) n a)
+      end.
 Proof. exact anm_src_name_value_is_table_value. Qed.
+
+(* a name owned by both enums in an untyped position is an error *)
+Theorem C20_cross_enum_plain_use_is_error : forall consts names n v i,
+  lookup_const n consts = Some v -> index_of n names = Some i ->
+  resolve_use consts names (XPlain n) = Err E_AMBIG_ENUM.
+Proof. intros consts names n v i H1 H2. unfold resolve_use. now rewrite H1, H2. Qed.
 
 (* the rule itself: the constants gather_sprite_id_exprs defines are the ids write_entry assigns *)
 Theorem C20_sprite_const_is_written_id : forall wraps decls w,
@@ -134,9 +149,17 @@ Example C20_anm_src_instance :
        as_entries := [[ {| ss_name := 0; ss_id := Some (ETern (EVar None 1%nat) (EVar None 0%nat) (ELitI 20)) |}; {| ss_name := 1; ss_id := None |} ];
                       [ {| ss_name := 0; ss_id := Some (ELitI 7) |} ]];
        as_scripts := [ {| sc_name := 0; sc_number := None |}; {| sc_name := 1; sc_number := Some 10 |}; {| sc_name := 2; sc_number := None |} ];
-       as_uses := [USprite 0; USprite 1; UScript 2] |}
-  = Ok ([7; 8; 7], [0; 10; 11], [7; 8; 2]).
+       as_uses := [XSprite 0; XSprite 1; XScript 2; XPlain 2; XScript 0] |}
+  = Ok ([7; 8; 7], [0; 10; 11], [7; 8; 2; 2; 0]).
 Proof. vm_compute. reflexivity. Qed.
+
+(* name 0 is both sprite 0 (id 7) and script 0: typed uses resolve, the untyped one is an error *)
+Example C20_cross_enum_instance :
+  let inp u := {| as_consts := []; as_entries := [[ {| ss_name := 0; ss_id := Some (ELitI 7) |} ]; [ {| ss_name := 0; ss_id := Some (ELitI 7) |} ]];
+                  as_scripts := [ {| sc_name := 5; sc_number := None |}; {| sc_name := 0; sc_number := None |} ]; as_uses := u |} in
+  compile_anm_src gen_optable (fun _ _ => 0) 50 gen_idtable (inp [XSprite 0; XScript 0]) = Ok ([7; 7], [0; 1], [7; 1]) /\
+  compile_anm_src gen_optable (fun _ _ => 0) 50 gen_idtable (inp [XPlain 0]) = Err E_AMBIG_ENUM.
+Proof. split; vm_compute; reflexivity. Qed.
 
 Example C20_msg_instance :
   compile_msg gen_idtable false {| sp_len := 4; sp_tbl := [(3%nat, {| te_script := Some 1%nat; te_flags := 0 |})];
